@@ -40,6 +40,8 @@ def one_case(rng, res, check_c11=True, tamper="draw", case_no=None):
         harmless_only = set(chainrun.TAMPERS) <= {None, "rewrite", "excluded"}
         opts = chainrun.gen_opts(rng, allow_paths=harmless_only or tamper in HARMLESS or tamper in ("link_edit", "link_swap", "link_remove") or
                                  (tamper in ("edit", "add", "delete", "rename") and at < n), case_no=case_no)
+        if tamper in ("link_edit", "link_swap") and case_no is not None and case_no % 4 == 0:
+            opts["force_gpg"] = True       # (the step whose link is tampered with is carried out with a gpg key, in every run)
         try:
             h = chainrun.Honest(rng, root).carry_out(n, tamper, at, opts)
         except (OSError, ValueError, KeyError, AttributeError, TypeError) as e:
